@@ -528,3 +528,34 @@ func (r *Runner) Backlog(prog string, frame []byte, placement int, t0, tEnd, gap
 	}
 	return out, nil
 }
+
+// Member is one struct member as the C compiler laid it out (Member == "" is the struct itself: Size = sizeof).
+type Member struct {
+	Struct, Member string
+	Off, Size      int
+}
+
+// Layout returns offsetof/sizeof for every struct defined in the program file.
+func (r *Runner) Layout() ([]Member, error) {
+	if r.dead != nil {
+		return nil, r.dead
+	}
+	r.in.WriteByte('Y')
+	r.in.Flush()
+	n, err := r.r32()
+	if err != nil {
+		return nil, r.fail(err)
+	}
+	out := make([]Member, 0, n)
+	for i := 0; i < int(n); i++ {
+		st, _ := r.rblob()
+		mb, _ := r.rblob()
+		off, _ := r.r32()
+		sz, err := r.r32()
+		if err != nil {
+			return nil, r.fail(err)
+		}
+		out = append(out, Member{string(st), string(mb), int(off), int(sz)})
+	}
+	return out, nil
+}
